@@ -1,18 +1,1037 @@
-//! C11 — not built yet.
+//! C11 — a zone file means what RFC 1035 section 5 says it means.
+//!
+//! Bounded-exhaustive: the generator in `zonegen` owns a denotation and renders
+//! it in every combination of the syntactic variants of a stated menu; every
+//! file goes through the real `Zone::deserialise` and the observation (apex,
+//! SOA, `all_records()`, `all_wildcard_records()`, as sorted dumps) is compared
+//! with what the small interpreter in `zonegen::build` says the file means.
+//! Files that break one rule of the statement must be rejected.
+
+/// The zone-file generator shared with C13 and C17 lives in `zonegen.rs`; it
+/// is declared here so that no change to `main.rs` is needed.
+#[path = "zonegen.rs"]
+pub mod zonegen;
+
+use self::zonegen::*;
 use crate::common::*;
-use serde_json::Value;
+use crate::util::*;
+use dns_types::protocol::types::*;
+use dns_types::zones::types::Zone;
+use serde_json::{json, Value};
+use std::collections::BTreeMap;
 
-pub fn run(_ctx: &Ctx) -> i32 {
-    eprintln!("C11: check not built");
-    2
+pub const SLUG_PAREN: &str = "paren-adjacent-token";
+pub const SLUG_SOA_TTL: &str = "soa-ttl-inherits-minimum";
+pub const SLUG_DIGIT: &str = "all-digit-owner";
+pub const SLUG_IN_OWNER: &str = "class-mnemonic-owner";
+pub const SLUG_ESC_DOT: &str = "escaped-dot-in-name";
+pub const SLUG_ESC_AT: &str = "escaped-at-in-name";
+pub const SLUG_MNEMONIC_RDATA: &str = "mnemonic-as-rdata-name";
+
+/// Each worker hands at most this many violations per clause to the sink
+/// (the rest is only counted): formatting millions of them would dominate.
+const PER_WORKER_AND_CLAUSE: u64 = 8;
+
+#[derive(Debug, Clone, PartialEq, Eq)]
+pub enum Obs {
+    Ok(Dump),
+    Err(String),
+    Panic,
 }
 
-pub fn replay(_ctx: &Ctx, _v: &Value) -> i32 {
-    eprintln!("C11: check not built");
-    2
+pub fn observe(text: &str) -> Obs {
+    match std::panic::catch_unwind(|| Zone::deserialise(text)) {
+        Ok(Ok(z)) => Obs::Ok(dump_zone(&z)),
+        Ok(Err(e)) => Obs::Err(format!("{e:?}")),
+        Err(_) => Obs::Panic,
+    }
 }
 
-/// Entry point for `vcheck worker C11 <args...>` (child-process mode).
+fn show_obs(o: &Obs) -> Value {
+    match o {
+        Obs::Ok(d) => json!({"ok": d.to_json()}),
+        Obs::Err(e) => json!({"err": e}),
+        Obs::Panic => json!("panic"),
+    }
+}
+
+fn show_expect(e: &Expect) -> Value {
+    match e {
+        Expect::Ok(d) => json!({"ok": d.to_json()}),
+        Expect::Err(k) => json!({"err": k}),
+        Expect::Unjudged(k) => json!({"unjudged": k}),
+    }
+}
+
+fn agrees(e: &Expect, o: &Obs) -> bool {
+    match (e, o) {
+        (Expect::Ok(a), Obs::Ok(b)) => a == b,
+        (Expect::Err(_), Obs::Err(_)) => true,
+        (Expect::Unjudged(_), Obs::Panic) => false,
+        (Expect::Unjudged(_), _) => true,
+        _ => false,
+    }
+}
+
+fn short(text: &str) -> String {
+    let mut s = String::new();
+    for c in text.chars() {
+        match c {
+            '\n' => s.push_str("\\n"),
+            '\t' => s.push_str("\\t"),
+            c => s.push(c),
+        }
+    }
+    s
+}
+
+fn first_difference(e: &Dump, o: &Dump) -> &'static str {
+    if e.apex != o.apex {
+        "apex"
+    } else if e.soa != o.soa {
+        "soa"
+    } else if e.recs != o.recs {
+        "records"
+    } else {
+        "wildcard-records"
+    }
+}
+
+fn replay_json(space: &str, index: usize, text: &str, expect: &Expect) -> Value {
+    json!({
+        "kind": "zone-text",
+        "space": space,
+        "index": index,
+        "text": text,
+        "expect": show_expect(expect),
+    })
+}
+
+#[derive(Default)]
+struct Acc {
+    cases: u64,
+    skipped: u64,
+    entries: u64,
+    unjudged: u64,
+    hist: BTreeMap<String, u64>,
+    /// fnv64 of the text with the lowest bit replaced by "non-trivial"
+    hashes: Vec<u64>,
+    samples: Vec<Value>,
+    /// violations seen by this worker, per clause (all of them; the sink only
+    /// receives the first few per worker and clause)
+    vcount: BTreeMap<String, u64>,
+}
+
+impl Acc {
+    fn h(&mut self, k: &str) {
+        *self.hist.entry(k.to_string()).or_insert(0) += 1;
+    }
+}
+
+/// Judge one generated file.  Returns true if it was a violation.
+fn judge(acc: &mut Acc, sink: &Sink, space: &'static str, index: usize, spec: &FileSpec, b: &Built) -> bool {
+    acc.cases += 1;
+    acc.entries += spec.entries.len() as u64;
+    let m = &b.meta;
+    let nontrivial = match &b.expect {
+        Expect::Ok(_) => {
+            m.omitted_owner
+                || m.omitted_ttl
+                || m.omitted_class
+                || m.class_before_ttl
+                || m.wildcard
+                || m.relative
+                || m.origin_change
+                || m.escapes
+                || m.quoted
+                || m.uses_paren
+                || m.clamp_applies
+        }
+        Expect::Err(_) => true,
+        Expect::Unjudged(_) => false,
+    };
+    acc.hashes.push((fnv64(b.text.as_bytes()) & !1) | u64::from(nontrivial));
+    match &b.expect {
+        Expect::Ok(_) => {
+            acc.h(&format!("{space}:expect-ok"));
+            for (flag, name) in [
+                (m.omitted_owner, "owner-omitted"),
+                (m.omitted_ttl, "ttl-omitted"),
+                (m.omitted_class, "class-omitted"),
+                (m.class_before_ttl, "class-before-ttl"),
+                (m.wildcard, "wildcard-owner"),
+                (m.relative, "relative-or-@"),
+                (m.origin_change, "origin-change"),
+                (m.escapes, "escape"),
+                (m.quoted, "quoted-string"),
+                (m.comment, "comment"),
+                (m.uses_paren, "parentheses"),
+                (m.paren_touches_token, "parenthesis-touching-token"),
+                (m.clamp_applies, "ttl-raised-to-minimum"),
+                (m.ttl_through_soa, "ttl-inherited-through-soa"),
+                (m.soa, "authoritative"),
+                (m.digit_owner, "all-digit-owner"),
+                (m.keyword_owner, "mnemonic-owner"),
+            ] {
+                if flag {
+                    acc.h(&format!("feature:{name}"));
+                }
+            }
+        }
+        Expect::Err(k) => acc.h(&format!("{space}:expect-err:{k}")),
+        Expect::Unjudged(k) => {
+            acc.unjudged += 1;
+            acc.h(&format!("{space}:unjudged:{k}"));
+        }
+    }
+    let obs = observe(&b.text);
+    if acc.samples.len() < 2 && acc.cases % 7919 == 1 {
+        acc.samples.push(json!({"space": space, "text": b.text, "expected": show_expect(&b.expect)}));
+    }
+    if agrees(&b.expect, &obs) {
+        return false;
+    }
+    let vcount = &mut acc.vcount;
+    let mut push = |clause: String, slug: Option<&'static str>, why: &str| {
+        let n = vcount.entry(format!("{clause}|{}", slug.unwrap_or(""))).or_insert(0);
+        *n += 1;
+        if *n > PER_WORKER_AND_CLAUSE {
+            return;
+        }
+        sink.push(Violation {
+            clause,
+            summary: format!(
+                "{} [{space}#{index}] {why}: expected {} but Zone::deserialise gave {}",
+                short(&b.text),
+                show_expect(&b.expect),
+                show_obs(&obs)
+            ),
+            replay: replay_json(space, index, &b.text, &b.expect),
+            slug,
+        });
+    };
+    if obs == Obs::Panic {
+        push("panic".into(), None, "panic");
+        return true;
+    }
+    // --- attribution to an anticipated family (never changes the verdict) ---
+    let hyps: [(Hyp, &str, Option<&'static str>, &str); 5] = [
+        (
+            Hyp { soa_ttl_is_minimum: true, ..Hyp::default() },
+            "ttl-inherited-after-soa",
+            Some(SLUG_SOA_TTL),
+            "the TTL carried forward from the SOA is its MINIMUM instead of the TTL written on it",
+        ),
+        (
+            Hyp { digit_owner_is_ttl: true, ..Hyp::default() },
+            "all-digit-owner",
+            Some(SLUG_DIGIT),
+            "an owner made of digits followed by an omitted TTL is read as a TTL",
+        ),
+        (
+            Hyp { in_owner_is_class: true, ..Hyp::default() },
+            "owner-named-IN",
+            Some(SLUG_IN_OWNER),
+            "an owner written IN followed by an omitted class is read as the class",
+        ),
+        (
+            Hyp { soa_ttl_is_minimum: true, digit_owner_is_ttl: true, ..Hyp::default() },
+            "all-digit-owner+ttl-inherited-after-soa",
+            None,
+            "digits read as TTL and SOA TTL rewritten",
+        ),
+        (
+            Hyp { soa_ttl_is_minimum: true, in_owner_is_class: true, ..Hyp::default() },
+            "owner-named-IN+ttl-inherited-after-soa",
+            None,
+            "IN read as class and SOA TTL rewritten",
+        ),
+    ];
+    let applicable = |h: &Hyp| -> bool {
+        (!h.soa_ttl_is_minimum || m.ttl_through_soa) && (!h.digit_owner_is_ttl || m.digit_owner) && (!h.in_owner_is_class || m.keyword_owner)
+    };
+    // (1) parentheses touching a token: does the same file with blanks round
+    //     every parenthesis load correctly -- or at least show nothing but one
+    //     of the other anticipated readings?
+    if m.paren_touches_token {
+        let spaced = respaced(spec);
+        if let Some(b2) = build(&spaced, Hyp::default()) {
+            let obs2 = observe(&b2.text);
+            let mut explained = b2.expect == b.expect && agrees(&b2.expect, &obs2);
+            if !explained && obs2 != obs {
+                for (h, _, slug, _) in &hyps {
+                    if slug.is_none() || !applicable(h) {
+                        continue;
+                    }
+                    if let Some(bh) = build(&spaced, *h) {
+                        if bh.expect != b2.expect && !matches!(bh.expect, Expect::Unjudged(_)) && agrees(&bh.expect, &obs2) {
+                            explained = true;
+                            break;
+                        }
+                    }
+                }
+            }
+            if explained {
+                push(
+                    "paren-adjacent-to-token".into(),
+                    Some(SLUG_PAREN),
+                    "a parenthesis written without a blank next to a token is not recognised (the same file with blanks round the parentheses is read as expected, or differs only by another anticipated reading)",
+                );
+                return true;
+            }
+        }
+    }
+    // (2)-(4) alternative readings
+    for (h, clause, slug, why) in hyps {
+        if !applicable(&h) {
+            continue;
+        }
+        if let Some(bh) = build(spec, h) {
+            if bh.expect != b.expect && !matches!(bh.expect, Expect::Unjudged(_)) && agrees(&bh.expect, &obs) {
+                push(clause.into(), slug, why);
+                return true;
+            }
+        }
+    }
+    // anything else
+    let prefix = if space == "mnemonic-owners" { "mnemonic-owner:" } else { "" };
+    let clause = match (&b.expect, &obs) {
+        (Expect::Ok(_), Obs::Err(_)) => format!("{prefix}valid-file-rejected"),
+        (Expect::Ok(e), Obs::Ok(o)) => format!("{prefix}{}", first_difference(e, o)),
+        (Expect::Err(k), _) => format!("accepted:{k}"),
+        _ => "other".to_string(),
+    };
+    if std::env::var_os("VERIF_C11_DEBUG").is_some() {
+        eprintln!("DEBUG {clause} [{space}#{index}] {} => {}", short(&b.text), show_obs(&obs));
+    }
+    push(clause, None, "disagreement");
+    true
+}
+
+// ---------------------------------------------------------------------------
+// hand-written cases: corruptions, escapes in names, the RFC's own example
+// ---------------------------------------------------------------------------
+
+struct Manual {
+    space: &'static str,
+    text: String,
+    expect: Expect,
+    /// clause used when the case fails
+    clause: String,
+    /// (slug, reading that the defect would produce): the slug is attached only
+    /// when the implementation's result equals that reading
+    slug: Option<(&'static str, Expect)>,
+}
+
+fn dump(apex: &str, soa: Option<&str>, recs: &[&str], wild: &[&str]) -> Dump {
+    let mut r: Vec<String> = recs.iter().map(|s| s.to_string()).collect();
+    if let Some(s) = soa {
+        let minimum = s.rsplit(' ').next().unwrap_or("0");
+        r.push(format!("{apex} {minimum} {s}"));
+    }
+    r.sort();
+    let mut w: Vec<String> = wild.iter().map(|s| s.to_string()).collect();
+    w.sort();
+    Dump {
+        apex: apex.to_string(),
+        soa: soa.map(String::from),
+        recs: r,
+        wild: w,
+    }
+}
+
+/// Single-fault corruptions of valid base files.  Every one must be rejected.
+fn corruptions(level: u8) -> Vec<Manual> {
+    let mut out: Vec<Manual> = Vec::new();
+    let mut add = |kind: &'static str, spec: &FileSpec, text_edit: Option<&dyn Fn(&str) -> Option<String>>| {
+        if let Some(b) = build(spec, Hyp::default()) {
+            let text = match text_edit {
+                Some(f) => match f(&b.text) {
+                    Some(t) => t,
+                    None => return,
+                },
+                None => b.text.clone(),
+            };
+            out.push(Manual {
+                space: "corruptions",
+                text,
+                expect: Expect::Err(kind),
+                clause: format!("accepted:{kind}"),
+                slug: None,
+            });
+        }
+    };
+    let tcs = [TtlClass::TtlIn, TtlClass::InTtl, TtlClass::Ttl];
+    let paren = Layout {
+        open: Some(OpenAt::AfterType),
+        breaks: Breaks::All,
+        open_left: false,
+        open_right: false,
+        close_left: false,
+    };
+    let layouts_used: Vec<Layout> = if level >= 2 { vec![FLAT, paren] } else { vec![FLAT] };
+    for frame in [Frame::AuthSoaFirst, Frame::NonAuth] {
+        let origin = frame.origin();
+        for t in NON_SOA_TYPES {
+            for rvar in rdata_variants(t, &origin, if level >= 2 { 1 } else { 0 }) {
+                for tc in tcs {
+                    for lay in &layouts_used {
+                        let mut syn = RecSyn::plain(tc);
+                        syn.layout = *lay;
+                        let den = RecDen {
+                            owner: OwnerSel::Name(child("www", &origin), false),
+                            ttl: Some(300),
+                            rvar: rvar.clone(),
+                        };
+                        let base = frame.wrap(vec![Entry::Rec(den.clone(), syn.clone())], 0);
+                        // sanity: the base itself is a valid file
+                        match build(&base, Hyp::default()) {
+                            Some(Built { expect: Expect::Ok(_), .. }) => {}
+                            _ => continue,
+                        }
+                        let last = base.entries.len() - 1;
+                        // $INCLUDE at every position
+                        for pos in 0..=base.entries.len() {
+                            for inc in ["$INCLUDE other.zone\n", "$INCLUDE other.zone sub.ex. ; comment\n"] {
+                                let mut s = base.clone();
+                                s.entries.insert(pos, Entry::Raw(inc.to_string()));
+                                add("include", &s, None);
+                            }
+                        }
+                        // class other than IN
+                        if tc.writes_class() {
+                            for c in ["CH", "HS", "CLASS3", "CS"] {
+                                let mut s = base.clone();
+                                if let Entry::Rec(_, sy) = &mut s.entries[last] {
+                                    sy.class_text = Some(c);
+                                }
+                                add("class-not-in", &s, None);
+                            }
+                        }
+                        // unknown type mnemonic
+                        for ty in ["FOO", "TYPE99", "AXFR"] {
+                            let mut s = base.clone();
+                            if let Entry::Rec(_, sy) = &mut s.entries[last] {
+                                sy.type_text = Some(ty);
+                            }
+                            add("unknown-type", &s, None);
+                        }
+                        // SOA related
+                        let soa_of = |owner: Name, wild: bool| -> Entry {
+                            let rv = soa_rvar(&nm("ns1.ex."), &nm("admin.ex."), [2, 7200, 600, 3600000, 60]);
+                            let mut sy = RecSyn::plain(TtlClass::TtlIn);
+                            sy.owner_form = NameForm::Abs;
+                            sy.name_form = NameForm::Abs;
+                            Entry::Rec(
+                                RecDen {
+                                    owner: OwnerSel::Name(owner, wild),
+                                    ttl: Some(3600),
+                                    rvar: rv,
+                                },
+                                sy,
+                            )
+                        };
+                        if frame.has_soa() {
+                            for owner in [nm("ex."), nm("zone2.ex."), nm("other.")] {
+                                for pos in [1usize, base.entries.len()] {
+                                    let mut s = base.clone();
+                                    s.entries.insert(pos, soa_of(owner.clone(), false));
+                                    add("two-soa", &s, None);
+                                }
+                            }
+                            // owner outside the apex
+                            for o in [nm("www.other."), nm("x."), Vec::new(), nm("wwwex.")] {
+                                let mut s = base.clone();
+                                if let Entry::Rec(d, sy) = &mut s.entries[last] {
+                                    d.owner = OwnerSel::Name(o.clone(), false);
+                                    sy.owner_form = NameForm::Abs;
+                                }
+                                add("owner-outside-apex", &s, None);
+                                let mut s = base.clone();
+                                if let Entry::Rec(d, sy) = &mut s.entries[last] {
+                                    d.owner = OwnerSel::Name(o, true);
+                                    sy.owner_form = NameForm::Abs;
+                                }
+                                add("owner-outside-apex", &s, None);
+                            }
+                        } else {
+                            for owner in [nm("ex."), Vec::new()] {
+                                let mut s = base.clone();
+                                s.entries.push(soa_of(owner, true));
+                                add("wildcard-soa", &s, None);
+                            }
+                            // first record without owner / without TTL
+                            let mut s = base.clone();
+                            if let Entry::Rec(d, _) = &mut s.entries[last] {
+                                d.owner = OwnerSel::Inherit;
+                            }
+                            add("no-owner-to-inherit", &s, None);
+                            for tc2 in [TtlClass::In, TtlClass::Neither] {
+                                let mut s = base.clone();
+                                if let Entry::Rec(d, sy) = &mut s.entries[last] {
+                                    d.ttl = None;
+                                    sy.tc = tc2;
+                                }
+                                add("no-ttl-to-inherit", &s, None);
+                            }
+                        }
+                        // no origin in force while relative names are used
+                        {
+                            let mut s = base.clone();
+                            let mut hidden_any = false;
+                            for e in s.entries.iter_mut() {
+                                if let Entry::Origin { hidden, .. } = e {
+                                    *hidden = true;
+                                    hidden_any = true;
+                                }
+                            }
+                            if hidden_any {
+                                if let Some(Built { expect: Expect::Err("relative-name-without-origin"), .. }) =
+                                    build(&s, Hyp::default())
+                                {
+                                    add("relative-name-without-origin", &s, None);
+                                }
+                            }
+                        }
+                        // TTL that is not a 32-bit number
+                        for bad in ["4294967296", "-1", "1x", "3e2", "99999999999"] {
+                            let good = " 300";
+                            let f = |t: &str| -> Option<String> {
+                                let p = t.rfind(good)?;
+                                Some(format!("{} {bad}{}", &t[..p], &t[p + good.len()..]))
+                            };
+                            // only where "300" is the TTL (never part of the RDATA of these bases)
+                            add("bad-ttl", &base, Some(&f));
+                        }
+                        // field-level faults
+                        let k = rvar.fields.len();
+                        for i in 0..k {
+                            // missing field
+                            let mut s = base.clone();
+                            if let Entry::Rec(d, _) = &mut s.entries[last] {
+                                d.rvar.fields.remove(i);
+                            }
+                            add("missing-rdata-field", &s, None);
+                            // extra field (opaque types excluded: RFC 1035 allows several strings there)
+                            if !OPAQUE_TYPES.contains(&t) {
+                                let mut s = base.clone();
+                                if let Entry::Rec(d, _) = &mut s.entries[last] {
+                                    let f = d.rvar.fields[i].clone();
+                                    d.rvar.fields.insert(i, f);
+                                }
+                                add("extra-rdata-field", &s, None);
+                            }
+                            // malformed number / address
+                            let bad: Vec<&str> = match (&rvar.fields[i], t) {
+                                (Field::Lit(_), RecordType::A) => {
+                                    vec!["1.2.3", "1.2.3.256", "1.2.3.4.5", "a.b.c.d", "1.2.3.-4", "fd00::1"]
+                                }
+                                (Field::Lit(_), RecordType::AAAA) => {
+                                    vec![":::1", "1::2::3", "g::1", "1.2.3.4", "1:2:3:4:5:6:7:8:9", "12345::"]
+                                }
+                                (Field::Lit(_), RecordType::MX) | (Field::Lit(_), RecordType::SRV) => {
+                                    vec!["65536", "-1", "x", "1.5"]
+                                }
+                                _ => vec![],
+                            };
+                            for bv in bad {
+                                let mut s = base.clone();
+                                if let Entry::Rec(d, _) = &mut s.entries[last] {
+                                    d.rvar.fields[i] = Field::Lit(bv.to_string());
+                                }
+                                add("malformed-rdata", &s, None);
+                            }
+                            // bad escapes inside a field
+                            for bv in ["a\\25b", "a\\256", "\\2x", "\\999", "\\1\\2\\3"] {
+                                let mut s = base.clone();
+                                if let Entry::Rec(d, _) = &mut s.entries[last] {
+                                    d.rvar.fields[i] = Field::Lit(bv.to_string());
+                                }
+                                add("bad-escape", &s, None);
+                            }
+                        }
+                        // parentheses: stray `)`, nested `(`, unclosed `(` followed by another record
+                        let stray = |t: &str| -> Option<String> {
+                            let t = t.trim_end_matches('\n');
+                            Some(format!("{t} )\n"))
+                        };
+                        if lay.open.is_none() {
+                            add("unbalanced-parenthesis", &base, Some(&stray));
+                            let nested = |t: &str| -> Option<String> {
+                                // wrap the last line in two levels
+                                let t = t.trim_end_matches('\n');
+                                let p = t.rfind('\n').map(|p| p + 1).unwrap_or(0);
+                                Some(format!("{}( ( {} ) )\n", &t[..p], &t[p..]))
+                            };
+                            add("nested-parenthesis", &base, Some(&nested));
+                        } else {
+                            let unclosed = |t: &str| -> Option<String> {
+                                let t = t.trim_end_matches('\n');
+                                let t = t.strip_suffix(')')?;
+                                Some(format!("{t}\nother.ex. 300 IN A 10.9.9.9\n"))
+                            };
+                            add("unbalanced-parenthesis", &base, Some(&unclosed));
+                            let nested = |t: &str| -> Option<String> { Some(t.replacen('(', "( (", 1)) };
+                            add("nested-parenthesis", &base, Some(&nested));
+                        }
+                    }
+                }
+            }
+        }
+    }
+    // SOA specific faults
+    for tc in TTL_CLASS {
+        let origin = nm("ex.");
+        let mk = |fields_edit: &dyn Fn(&mut Vec<Field>)| -> FileSpec {
+            let mut rv = soa_rvar(&nm("ns1.ex."), &nm("admin.ex."), [1, 7200, 600, 3600000, 60]);
+            fields_edit(&mut rv.fields);
+            FileSpec {
+                entries: vec![
+                    Entry::Origin { name: origin.clone(), relative: false, hidden: false },
+                    Entry::Rec(
+                        RecDen {
+                            owner: OwnerSel::Name(origin.clone(), false),
+                            ttl: if tc.writes_ttl() { Some(3600) } else { None },
+                            rvar: rv,
+                        },
+                        RecSyn::plain(tc),
+                    ),
+                ],
+                noise: 0,
+            }
+        };
+        for i in 0..7 {
+            add("missing-rdata-field", &mk(&|f: &mut Vec<Field>| {
+                f.remove(i);
+            }), None);
+            add("extra-rdata-field", &mk(&|f: &mut Vec<Field>| {
+                let x = f[i].clone();
+                f.insert(i, x);
+            }), None);
+            if i >= 2 {
+                for bad in ["4294967296", "-1", "1h", "x"] {
+                    add("malformed-rdata", &mk(&|f: &mut Vec<Field>| {
+                        f[i] = Field::Lit(bad.to_string());
+                    }), None);
+                }
+            }
+        }
+        // a wildcard SOA, alone
+        let mut s = mk(&|_f: &mut Vec<Field>| {});
+        if let Entry::Rec(d, _) = &mut s.entries[1] {
+            d.owner = OwnerSel::Name(origin.clone(), true);
+        }
+        add("wildcard-soa", &s, None);
+        // a SOA as first record without owner
+        let mut s = mk(&|_f: &mut Vec<Field>| {});
+        if let Entry::Rec(d, _) = &mut s.entries[1] {
+            d.owner = OwnerSel::Inherit;
+        }
+        add("no-owner-to-inherit", &s, None);
+    }
+    // `$ORIGIN` faults
+    for t in [
+        "$ORIGIN\nwww.ex. 300 IN A 10.0.0.1\n",
+        "$ORIGIN ex. extra.\nwww.ex. 300 IN A 10.0.0.1\n",
+        "$ORIGIN sub\nwww.ex. 300 IN A 10.0.0.1\n",
+        "$ORIGIN @\nwww.ex. 300 IN A 10.0.0.1\n",
+        "$ORIGIN ex..\nwww.ex. 300 IN A 10.0.0.1\n",
+        "$INCLUDE\n",
+    ] {
+        out.push(Manual {
+            space: "corruptions",
+            text: t.to_string(),
+            expect: Expect::Err("bad-directive"),
+            clause: "accepted:bad-directive".into(),
+            slug: None,
+        });
+    }
+    out
+}
+
+fn ok(d: Dump) -> Expect {
+    Expect::Ok(d)
+}
+
+/// Escapes that must switch off the special meaning of a character inside a
+/// *name*, mnemonics used as relative names inside RDATA, and the example of
+/// RFC 1035 section 5.3.
+fn manual_cases() -> Vec<Manual> {
+    let mut v = Vec::new();
+    let a = "A 10.0.0.1";
+    // --- `\.` and `\046`: a dot that is part of a label
+    for (esc, _name) in [("\\.", "backslash-dot"), ("\\046", "decimal")] {
+        v.push(Manual {
+            space: "escapes-in-names",
+            text: format!("$ORIGIN ex.\nx{esc}y 300 IN A 10.0.0.1\n"),
+            expect: ok(dump(".", None, &[&format!("x\\.y.ex. 300 {a}")], &[])),
+            clause: "escape-in-name".into(),
+            slug: Some((SLUG_ESC_DOT, ok(dump(".", None, &[&format!("x.y.ex. 300 {a}")], &[])))),
+        });
+        v.push(Manual {
+            space: "escapes-in-names",
+            text: format!("x{esc}y.ex. 300 IN A 10.0.0.1\n"),
+            expect: ok(dump(".", None, &[&format!("x\\.y.ex. 300 {a}")], &[])),
+            clause: "escape-in-name".into(),
+            slug: Some((SLUG_ESC_DOT, ok(dump(".", None, &[&format!("x.y.ex. 300 {a}")], &[])))),
+        });
+        v.push(Manual {
+            space: "escapes-in-names",
+            text: format!("$ORIGIN ex.\nwww 300 IN CNAME x{esc}y\n"),
+            expect: ok(dump(".", None, &["www.ex. 300 CNAME x\\.y.ex."], &[])),
+            clause: "escape-in-name".into(),
+            slug: Some((SLUG_ESC_DOT, ok(dump(".", None, &["www.ex. 300 CNAME x.y.ex."], &[])))),
+        });
+        v.push(Manual {
+            space: "escapes-in-names",
+            text: format!("$ORIGIN ex.\n@ 3600 IN SOA ns1 admin{esc}contact 1 2 3 4 60\n"),
+            expect: ok(dump("ex.", Some("SOA ns1.ex. admin\\.contact.ex. 1 2 3 4 60"), &[], &[])),
+            clause: "escape-in-name".into(),
+            slug: Some((
+                SLUG_ESC_DOT,
+                ok(dump("ex.", Some("SOA ns1.ex. admin.contact.ex. 1 2 3 4 60"), &[], &[])),
+            )),
+        });
+    }
+    // --- `\@` and `\064`: a label that is literally `@`
+    for esc in ["\\@", "\\064"] {
+        v.push(Manual {
+            space: "escapes-in-names",
+            text: format!("$ORIGIN ex.\n{esc} 300 IN A 10.0.0.1\n"),
+            expect: ok(dump(".", None, &[&format!("@.ex. 300 {a}")], &[])),
+            clause: "escape-in-name".into(),
+            slug: Some((SLUG_ESC_AT, ok(dump(".", None, &[&format!("ex. 300 {a}")], &[])))),
+        });
+        v.push(Manual {
+            space: "escapes-in-names",
+            text: format!("$ORIGIN ex.\nwww 300 IN CNAME {esc}\n"),
+            expect: ok(dump(".", None, &["www.ex. 300 CNAME @.ex."], &[])),
+            clause: "escape-in-name".into(),
+            slug: Some((SLUG_ESC_AT, ok(dump(".", None, &["www.ex. 300 CNAME ex."], &[])))),
+        });
+    }
+    // escapes that are honoured inside names today (controls for the above)
+    v.push(Manual {
+        space: "escapes-in-names",
+        text: "$ORIGIN ex.\nx\\;y\\(z\\)\\\"q\\\\\\ w 300 IN A 10.0.0.1\n".into(),
+        expect: ok(dump(".", None, &[&format!("x;y(z)\"q\\\\\\032w.ex. 300 {a}")], &[])),
+        clause: "escape-in-name".into(),
+        slug: None,
+    });
+    v.push(Manual {
+        space: "escapes-in-names",
+        text: "@.ex. 300 IN A 10.0.0.1\n$ORIGIN ex.\n@.sub 300 IN A 10.0.0.1\n".into(),
+        expect: ok(dump(".", None, &[&format!("@.ex. 300 {a}"), &format!("@.sub.ex. 300 {a}")], &[])),
+        clause: "at-sign-inside-longer-name".into(),
+        slug: None,
+    });
+    // --- a relative name inside RDATA that spells a type mnemonic
+    for tc in ["300 IN ", "IN 300 ", "300 ", ""] {
+        let ttl_ok = !tc.is_empty();
+        let text = if ttl_ok {
+            format!("$ORIGIN ex.\nbox {tc}MINFO NS ns1\n")
+        } else {
+            format!("$ORIGIN ex.\nfirst 300 IN A 10.0.0.1\nbox MINFO NS ns1\n")
+        };
+        let mut recs = vec!["box.ex. 300 MINFO ns.ex. ns1.ex.".to_string()];
+        if !ttl_ok {
+            recs.push(format!("first.ex. 300 {a}"));
+        }
+        let refs: Vec<&str> = recs.iter().map(String::as_str).collect();
+        v.push(Manual {
+            space: "mnemonic-in-rdata",
+            text,
+            expect: ok(dump(".", None, &refs, &[])),
+            clause: "mnemonic-as-rdata-name".into(),
+            // the defect: `NS ns1` is taken for the record, the file is refused
+            slug: Some((SLUG_MNEMONIC_RDATA, Expect::Err("rejected"))),
+        });
+    }
+    for (rd, shown) in [
+        ("MX 10 A", "MX 10 a.ex."),
+        ("CNAME IN", "CNAME in.ex."),
+        ("NS NS", "NS ns.ex."),
+        ("TXT IN", "TXT \"IN\""),
+        ("TXT A", "TXT \"A\""),
+        ("SRV 1 2 3 SRV", "SRV 1 2 3 srv.ex."),
+    ] {
+        for head in ["www 300 IN ", "www IN 300 ", "www 300 "] {
+            v.push(Manual {
+                space: "mnemonic-in-rdata",
+                text: format!("$ORIGIN ex.\n{head}{rd}\n"),
+                expect: ok(dump(".", None, &[&format!("www.ex. 300 {shown}")], &[])),
+                clause: "mnemonic-as-rdata-name".into(),
+                slug: None,
+            });
+        }
+    }
+    // --- the example of RFC 1035 section 5.3 (loaded with origin ISI.EDU, the
+    //     $INCLUDE line left out).  No TTL is written anywhere: every reading
+    //     gives MINIMUM because the zone is authoritative.
+    let rfc = "$ORIGIN ISI.EDU.\n@   IN  SOA     VENERA      Action\\.domains (\n                                 20     ; SERIAL\n                                 7200   ; REFRESH\n                                 600    ; RETRY\n                                 3600000; EXPIRE\n                                 60)    ; MINIMUM\n\n        NS      A.ISI.EDU.\n        NS      VENERA\n        NS      VAXA\n        MX      10      VENERA\n        MX      20      VAXA\n\nA       A       26.3.0.103\n\nVENERA  A       10.1.0.52\n        A       128.9.0.32\n\nVAXA    A       10.2.0.27\n        A       128.9.0.33\n";
+    let rfc_recs = |rname: &str| -> Dump {
+        let soa = format!("SOA venera.isi.edu. {rname} 20 7200 600 3600000 60");
+        dump(
+            "isi.edu.",
+            Some(&soa),
+            &[
+                "isi.edu. 60 NS a.isi.edu.",
+                "isi.edu. 60 NS venera.isi.edu.",
+                "isi.edu. 60 NS vaxa.isi.edu.",
+                "isi.edu. 60 MX 10 venera.isi.edu.",
+                "isi.edu. 60 MX 20 vaxa.isi.edu.",
+                "a.isi.edu. 60 A 26.3.0.103",
+                "venera.isi.edu. 60 A 10.1.0.52",
+                "venera.isi.edu. 60 A 128.9.0.32",
+                "vaxa.isi.edu. 60 A 10.2.0.27",
+                "vaxa.isi.edu. 60 A 128.9.0.33",
+            ],
+            &[],
+        )
+    };
+    v.push(Manual {
+        space: "rfc1035-example",
+        text: rfc.to_string(),
+        expect: ok(rfc_recs("action\\.domains.isi.edu.")),
+        clause: "rfc1035-5.3-example".into(),
+        slug: Some((SLUG_ESC_DOT, ok(rfc_recs("action.domains.isi.edu.")))),
+    });
+    // the same with the parenthesis spaced and no escaped dot
+    v.push(Manual {
+        space: "rfc1035-example",
+        text: rfc.replace("60)", "60 )").replace("Action\\.domains", "Action-domains"),
+        expect: ok(rfc_recs("action-domains.isi.edu.")),
+        clause: "rfc1035-5.3-example-neutral".into(),
+        slug: None,
+    });
+    // with only the dot neutralised: fails for the parenthesis alone
+    v.push(Manual {
+        space: "rfc1035-example",
+        text: rfc.replace("Action\\.domains", "Action-domains"),
+        expect: ok(rfc_recs("action-domains.isi.edu.")),
+        clause: "paren-adjacent-to-token".into(),
+        slug: Some((SLUG_PAREN, Expect::Err("any"))),
+    });
+    v
+}
+
+fn judge_manual(acc: &mut Acc, sink: &Sink, index: usize, m: &Manual) {
+    acc.cases += 1;
+    acc.entries += m.text.lines().count() as u64;
+    acc.hashes.push(fnv64(m.text.as_bytes()) | 1);
+    match &m.expect {
+        Expect::Ok(_) => acc.h(&format!("{}:expect-ok", m.space)),
+        Expect::Err(k) => acc.h(&format!("{}:expect-err:{k}", m.space)),
+        Expect::Unjudged(k) => acc.h(&format!("{}:unjudged:{k}", m.space)),
+    }
+    let obs = observe(&m.text);
+    if acc.samples.len() < 1 && index % 997 == 5 {
+        acc.samples.push(json!({"space": m.space, "text": m.text, "expected": show_expect(&m.expect)}));
+    }
+    if agrees(&m.expect, &obs) {
+        return;
+    }
+    let (clause, slug) = if obs == Obs::Panic {
+        ("panic".to_string(), None)
+    } else {
+        match &m.slug {
+            Some((s, reading)) if agrees(reading, &obs) => (m.clause.clone(), Some(*s)),
+            _ => (m.clause.clone(), None),
+        }
+    };
+    *acc.vcount.entry(format!("{clause}|{}", slug.unwrap_or(""))).or_insert(0) += 1;
+    sink.push(Violation {
+        clause,
+        summary: format!(
+            "{} [{}#{index}]: expected {} but Zone::deserialise gave {}",
+            short(&m.text),
+            m.space,
+            show_expect(&m.expect),
+            show_obs(&obs)
+        ),
+        replay: replay_json(m.space, index, &m.text, &m.expect),
+        slug,
+    });
+}
+
+// ---------------------------------------------------------------------------
+
+struct SpaceRun<'a> {
+    name: &'static str,
+    count: usize,
+    spec: Box<dyn Fn(usize) -> Option<FileSpec> + Sync + 'a>,
+}
+
+pub fn run(ctx: &Ctx) -> i32 {
+    let level: u8 = ctx.tier.pick(1, 2);
+    let sink = Sink::new(40);
+    let mut report = Report::new();
+    // wall-clock cap; VERIF_C11_CAP (seconds) overrides it for experiments
+    let cap = std::env::var("VERIF_C11_CAP")
+        .ok()
+        .and_then(|s| s.parse::<f64>().ok())
+        .unwrap_or(ctx.tier.pick(50.0, 540.0));
+
+    let singles = Singles::new(level);
+    let pairs = Pairs::new(level);
+    let triples = Triples::new(level);
+    let soaforms = SoaForms::new(level);
+    let digits = OddOwners::new(true);
+    let mnemonics = OddOwners::new(false);
+    let spaces: Vec<SpaceRun> = vec![
+        SpaceRun { name: "digit-owners", count: digits.count(), spec: Box::new(|i| digits.spec(i)) },
+        SpaceRun { name: "mnemonic-owners", count: mnemonics.count(), spec: Box::new(|i| mnemonics.spec(i)) },
+        SpaceRun { name: "triples", count: triples.count(), spec: Box::new(|i| triples.spec(i)) },
+        SpaceRun { name: "soa-forms", count: soaforms.count(), spec: Box::new(|i| soaforms.spec(i)) },
+        SpaceRun { name: "singles", count: singles.count(), spec: Box::new(|i| singles.spec(i)) },
+        SpaceRun { name: "pairs", count: pairs.count(), spec: Box::new(|i| pairs.spec(i)) },
+    ];
+
+    let mut total = Acc::default();
+    let mut per_space: BTreeMap<String, Value> = BTreeMap::new();
+    let mut exhaustive = true;
+    let mut all_hashes: Vec<u64> = Vec::new();
+    let merge = |total: &mut Acc, all_hashes: &mut Vec<u64>, parts: Vec<Acc>| -> (u64, u64) {
+        let mut cases = 0;
+        let mut skipped = 0;
+        for p in parts {
+            cases += p.cases;
+            skipped += p.skipped;
+            total.cases += p.cases;
+            total.skipped += p.skipped;
+            total.entries += p.entries;
+            total.unjudged += p.unjudged;
+            for (k, v) in p.hist {
+                *total.hist.entry(k).or_insert(0) += v;
+            }
+            all_hashes.extend(p.hashes);
+            for (k, v) in p.vcount {
+                *total.vcount.entry(k).or_insert(0) += v;
+            }
+            for s in p.samples {
+                if total.samples.len() < 6 {
+                    total.samples.push(s);
+                }
+            }
+        }
+        (cases, skipped)
+    };
+
+    // hand-written cases first (cheap)
+    {
+        let mut list = corruptions(level);
+        list.extend(manual_cases());
+        let n = list.len();
+        let parts = par_fold(n, ctx.threads, ctx.seed, Acc::default, |acc, i| {
+            judge_manual(acc, &sink, i, &list[i]);
+        });
+        let (cases, _) = merge(&mut total, &mut all_hashes, parts);
+        per_space.insert("corruptions+manual".into(), json!({"cases": cases}));
+    }
+
+    let only = std::env::var("VERIF_C11_SPACES").ok();
+    for sp in &spaces {
+        if let Some(o) = &only {
+            // debugging aid: restrict the run to the named spaces (never exhaustive)
+            if !o.split(',').any(|n| n == sp.name) {
+                exhaustive = false;
+                continue;
+            }
+        }
+        if ctx.elapsed() > cap {
+            exhaustive = false;
+            per_space.insert(sp.name.into(), json!({"index_space": sp.count, "skipped_because_of_time_cap": true}));
+            continue;
+        }
+        let stop = std::sync::atomic::AtomicBool::new(false);
+        let parts = par_fold(sp.count, ctx.threads, ctx.seed, Acc::default, |acc, i| {
+            if stop.load(std::sync::atomic::Ordering::Relaxed) {
+                acc.skipped += 1;
+                acc.h("cut-by-time-cap");
+                return;
+            }
+            if i % 4096 == 0 && ctx.elapsed() > cap {
+                stop.store(true, std::sync::atomic::Ordering::Relaxed);
+            }
+            match (sp.spec)(i).and_then(|s| build(&s, Hyp::default()).map(|b| (s, b))) {
+                Some((s, b)) => {
+                    judge(acc, &sink, sp.name, i, &s, &b);
+                }
+                None => acc.skipped += 1,
+            }
+        });
+        if stop.load(std::sync::atomic::Ordering::Relaxed) {
+            exhaustive = false;
+        }
+        let (cases, skipped) = merge(&mut total, &mut all_hashes, parts);
+        per_space.insert(
+            sp.name.into(),
+            json!({"index_space": sp.count, "files": cases, "indices_not_denoting_a_separate_file": skipped, "done_at_s": ctx.elapsed()}),
+        );
+    }
+
+    all_hashes.sort_unstable();
+    all_hashes.dedup();
+    let distinct = all_hashes.len() as u64;
+    let distinct_nontrivial = all_hashes.iter().filter(|h| *h & 1 == 1).count() as u64;
+    let cut = total.hist.remove("cut-by-time-cap").unwrap_or(0);
+
+    report.evaluations = total.cases;
+    report.states = distinct;
+    report.transitions = total.entries;
+    report.traces_validated = total.cases;
+    report.distinct_nontrivial = distinct_nontrivial;
+    report.rule = "every index of six mixed-radix spaces (single records: frame x type x RDATA variant x layout x owner x wildcard x owner form x TTL x TTL/class form x name form x escape style x blanks x comment x surrounding lines; ordered pairs: every form of record 1 x every form of record 2 x frame x $ORIGIN change x SOA in between; triples of the inheritance forms x SOA place/TTL; the SOA in every form; owners spelled like a TTL / a class / a type) plus hand-written corruptions and escape cases; indices whose choice would not change the text are skipped, distinct files are counted by a 63-bit hash of the text; a file is non-trivial when it is expected to load and uses at least one optional construct (omitted owner/TTL/class, class before TTL, wildcard, relative name or @, $ORIGIN change, escape, quoted string, parentheses, TTL below the SOA minimum; comments and blanks alone do not count) or when it is a corruption that must be rejected".into();
+    report.samples = total.samples;
+    report.bounds = json!({
+        "level": level,
+        "spaces": per_space,
+        "types": "all 18 (17 as single records, SOA in soa-forms and every authoritative frame)",
+        "pair_types": PAIR_TYPES.iter().take(if level >= 2 { 6 } else { 3 }).map(|t| t.to_string()).collect::<Vec<_>>(),
+        "pair_forms_per_record": pairs.forms(),
+        "indices_cut_by_time_cap": cut,
+        "time_cap_s": cap,
+    });
+    report.exhaustive = exhaustive;
+    report.outcome_histogram = total.hist;
+    report.assumptions = vec![
+        "TXT/HINFO/NULL/WKS RDATA is one opaque token (the implementation's model, DESIGN C11); several character-strings per record are not generated".into(),
+        "a line that starts with a blank omits the owner, a line that starts in column 0 states it (RFC 1035 5.1); owners are never indented".into(),
+        "a TTL omitted after a SOA that was itself written without TTL and had none to inherit is not judged (RFC 1035 leaves it open)".into(),
+        "mnemonics are written in upper case, TTLs as plain decimal numbers".into(),
+        "an unclosed parenthesis is only judged when another record follows it".into(),
+    ];
+    report.extra.insert("unjudged_cases".into(), json!(total.unjudged));
+    report.extra.insert("violation_counts".into(), json!(total.vcount));
+    report.violations = sink.take();
+    // unanticipated families first: `finish` prints only the first dozen
+    report.violations.sort_by_key(|v| v.slug.is_some());
+    finish(ctx, report)
+}
+
+pub fn replay(ctx: &Ctx, v: &Value) -> i32 {
+    let text = v["text"].as_str().unwrap_or("");
+    let expect = &v["expect"];
+    println!("zone file:\n{text}");
+    let obs = observe(text);
+    println!("implementation: {}", show_obs(&obs));
+    println!("reference:      {expect}");
+    let holds = if let Some(d) = expect.get("ok").and_then(Dump::from_json) {
+        obs == Obs::Ok(d)
+    } else if expect.get("err").is_some() {
+        matches!(obs, Obs::Err(_))
+    } else {
+        obs != Obs::Panic
+    };
+    if holds {
+        println!("replay: property holds on this case");
+        0
+    } else {
+        println!("VIOLATION property={} replay=(replayed case)", ctx.id);
+        1
+    }
+}
+
 pub fn worker(_args: &[String]) -> i32 {
     2
 }
